@@ -367,7 +367,9 @@ def _g3_job(job):
                 res["fail"].append(("g3:tokens-differ:" + lex.file_kind(rel), case,
                                     "%s: token stream at line lengths %d/%d differs from default near token %d: %r vs %r"
                                     % (rel, cl, fl, i, tok[max(0, i - 3):i + 4], base_tok[rel][max(0, i - 3):i + 4])))
-            if lex.file_kind(rel) == "f" and fl <= 132:
+            # the configured length does not count the 2-column marker ' &', so the 132-column
+            # consequence is only implied for lengths up to 130
+            if lex.file_kind(rel) == "f" and fl <= 130:
                 for no, ln in enumerate(r.files[rel].decode("utf-8", "replace").split("\n"), 1):
                     code, _q = lex._f_strip_comment(ln)
                     if not ln.startswith("#") and len(code.rstrip()) > 132:
